@@ -760,6 +760,7 @@ def _check_absorb_loop(c, f, ex, ps, hdr, klen, di, ri):
     cur, rem = (("hdp", ptrs[0].id) if ptrs else None), ("hd", ints[0].id)
     n = 0
     seen = set()
+    lenmark = {}
     expanded = []
     for p in ps:
         if idx_style and p.end[0] == "ret" and p.blocks and p.blocks[0] == hdr:
@@ -861,9 +862,17 @@ def _check_absorb_loop(c, f, ex, ps, hdr, klen, di, ri):
                 raise Broken("%s: %s: whether the %s absorbs its bytes injectively is not decided" % (f.name, why_, name))
             c.ob(inj, "INJ", "absorb-%s-injective" % name, "the state after the %s is an injective function of its %d data byte(s): two different inputs never leave the same state behind" % (name, r),
                  "the %s does not absorb its bytes injectively: %s - a modified input authenticates under the same tag" % (name, why_))
+            if r < 4:
+                # what tells a partial last word of r bytes from r + 1 bytes ending in a zero byte: the constant injected beside the data
+                lenmark[r] = tuple(gf2.is_const(gf2.wxor(list(final[i_]), list(Q[i_]))) for i_ in (0, 1, 2))
         n += 6
     if seen != {0, 1, 2, 3, 4}:
         raise Broken("%s: the path classes found (%s) are not the residues 0..3 plus the full block: unrecognised shape" % (f.name, sorted(seen)))
+    if "INJ" in c.rulemap and len(lenmark) == 3:
+        marks = [lenmark[r_] for r_ in (1, 2, 3)]
+        okm = all(None not in m_ and any(m_) for m_ in marks) and len(set(marks)) == 3
+        c.ob(okm, "INJ", "absorb-length-marks", "a partial last word of 1, 2 and 3 bytes injects three different non-zero constants beside the data: `ab` and `ab 00` are absorbed differently",
+             "the constants injected for partial words of 1, 2, 3 bytes are %s: inputs that differ only in trailing zero bytes are absorbed alike" % (marks,))
     c.ob(True, "ADVANCE", "absorb-classes", "all residue classes 0..3 and the full block are handled", "")
     c.flush()
     return n + 1
